@@ -106,8 +106,8 @@ def check_vector(v):
                                     "vector": v, "expected": "raise", "observed": str(o)[:200], "case": {"data": data}})
         return {"n": n, "nt": nt, "bad": bad}
     # value machine
-    if v["status"] == "fresh":
-        return {"n": 0, "nt": [], "bad": [], "traces": 0}
+    if v["status"] == "fresh" or v["hist"][-1][0] == "reorder-labels":
+        return {"n": 0, "nt": [], "bad": [], "traces": 0}          # reorder-labels states are replayed in processes of their own
     text = v["text"]
     for form in ("str", "list", "base", "ragged"):
         hist = v["hist"]
@@ -136,6 +136,13 @@ def check_vector(v):
                 o = outcome(again)
             elif op == "retarget":
                 o = outcome(lambda: bnp.as_encoded_array(cur, encs[B]))
+            elif op == "assign":
+                def assign():
+                    flat = cur.ravel()[:len(text)] if hasattr(cur, "lengths") else cur
+                    target = flat.copy()
+                    target[0:len(text)] = bnp.as_encoded_array("".join(chr(b) for b in text), encs[B])
+                    return target if form in ("str", "base") else bnp.as_encoded_array([target.to_string(), target.to_string()[:1]], target.encoding)
+                o = outcome(assign)
             elif op == "rewrap":
                 def rewrap():
                     from bionumpy.encoded_array import EncodedArray, EncodedRaggedArray
@@ -200,12 +207,39 @@ def check_vector(v):
     return {"n": n, "nt": nt, "bad": bad}
 
 
+def check_reorder(v):
+    """Encoding.tla!ReorderLabelList, in a process of its own (the predefined encodings are shared objects)."""
+    import bionumpy as bnp
+    encs = _encodings()
+    e = encs[v["enc"]]
+    text = "".join(chr(b) for b in v["text"])
+    upper = text.upper()
+
+    def go():
+        x = bnp.as_encoded_array(text, e)
+        for getter in ("get_alphabet", "get_labels"):
+            lst = getattr(e, getter)()
+            if isinstance(lst, list):
+                lst.reverse()
+                lst.sort(key=lambda c: -ord(str(c)[0]))
+                if lst:
+                    lst[0] = "?"
+        again = bnp.as_encoded_array(text, e)
+        return x.to_string(), again.to_string(), [int(c) for c in again.raw().tolist()]
+    o = outcome(go)
+    bad = []
+    if o != ("ok", (upper, upper, v["codes"])):
+        bad.append({"what": "reordering the list returned by get_alphabet()/get_labels() changed what encoded values spell", "tags": {"op": "reorder-labels", "form": "str", "from": v["enc"], "to": v["enc"]},
+                    "vector": v, "expected": [upper, upper, v["codes"]], "observed": o})
+    return {"n": 1, "nt": ["reorder|" + v["enc"]], "bad": bad}
+
+
 def run(ctx):
     quick = ctx.tier == "quick"
     res = ctx.tlc("MC_C06", spec="SpecAll", constants={"AsBuilt": False, "MaxLen": 2 if quick else 3, "MaxOps": 3},
                   invariants=["TextPreserved", "CodesInRange", "AlphabetsWellFormed", "RoundTrip", "Emit"],
                   postcondition="EmitTables", coverage=True)
-    ctx.require_actions(res, "MC_C06", ["EncodeOp", "Retarget", "Change", "ReverseRows", "ScribbleThenEncodeAgain", "Rewrap", "Collect"])
+    ctx.require_actions(res, "MC_C06", ["EncodeOp", "Retarget", "Change", "ReverseRows", "ScribbleThenEncodeAgain", "Rewrap", "Collect", "AssignFrom", "ReorderLabelList"])
     r = core.run_tlc("MC_C06", ctx.work, tag="MC_C06_asbuilt", spec="Spec", expect_ok=False,
                      constants={"AsBuilt": True, "MaxLen": 1, "MaxOps": 2}, invariants=["TextPreserved"])
     if not any("TextPreserved is violated" in e for e in r.errors):
@@ -219,6 +253,12 @@ def run(ctx):
     vals = [v for v in vectors if v["kind"] == "value"]
     ctx.sample(vals[len(vals) // 2])
     ctx.absorb(core.pmap(check_vector, vectors, chunk=100))
+    seen, jobs = set(), []
+    for v in vectors:
+        if v.get("kind") != "table" and v.get("hist") and v["hist"][-1][0] == "reorder-labels" and v["enc"] not in seen and len(v["text"]) >= 2:
+            seen.add(v["enc"])
+            jobs.append(v)
+    ctx.absorb(core.pmap_isolated(check_reorder, jobs))
     ctx.exhaustive = True
     return ctx.finish(RULE, assumptions=[
         "bytes >= 128 are presented as base-encoded arrays (a Python str would not be single bytes)",
